@@ -75,6 +75,17 @@ BitmaskTags(ev) ==
                               ev.wire[i].enc # AvpRecord(Avp(ev.kind, <<ev.wire[i].w>>)), "bitmask-reencode")
                          \o T(\E i \in 1..4 : ctor[i].enc # AvpRecord(Avp(ev.kind, ctor[i].bits)), "bitmask-reencode"))
 
+\* C03 / C04 with one numeric field swept through its whole range inside the harness (the relation is on the
+\* implementation's own values: Rust's `==` between the original and the strictly decoded value).  ev.v is the
+\* base value: it must be in the round-trip domain as the specification defines it (so that the sweep means
+\* something), the sweep must have covered the range asked for, and nothing may have failed.
+VRtSweep(ev) ==
+  (IF ev.out.t # "ok" THEN <<"outcome-" \o ev.out.t>>
+   ELSE T(ev.tested # ev.want, "harness-sweep-range")
+        \o T(LET sp == EncodeInto(<< >>, ev.kind, ev.v) IN sp.panic, "harness-sweep-base")
+        \o T(ev.bad # << >>, "roundtrip"))
+  \o IoTags(ev)
+
 \* C17 over a whole range of wire words (thorough: all 2^32), swept inside the harness, which compares every word
 \* with the bits the CONSTRUCTOR sets and reports the words that fail.  The specification checks that those
 \* constructor words are the pinned layout (so that "the bit learned from the constructor" is the right bit),
